@@ -35,7 +35,7 @@ CLAIMED['C06'] = dict(
          'len() == bytes written == bytes consumed, stack_effect() == net stack depth change on every non-error path, jump ops '
          'land exactly on the label offset or the distance overflow is diagnosed, PushHandler registers the label offset and the '
          'slot depth operand, retried ops restore ip and depth, the line table gets one entry per byte; C06.C1 the real lowering '
-         'functions ternary / if_ / while_ / binary / unary are executed with opaque sub-constructs (induction hypothesis: an '
+         'functions ternary / if_ / while_ / binary / unary / call / index / list / tuple / map / interpolation / channel / raise are executed with opaque sub-constructs (induction hypothesis: an '
          'expression pushes one value, a block nets its locals): the depth is the same on every path into every join, the '
          'construct has its declared net effect, and the repository\'s own apply_stack_effects, run from MIR on the skeleton, '
          'computes the real depth at every reachable instruction. Remaining lowering functions and max_slots reservation are not '
